@@ -22,6 +22,14 @@ pub const BUDGET: u64 = 24;
 pub static COMPILED: AtomicU64 = AtomicU64::new(0);
 pub static CACHE_HITS: AtomicU64 = AtomicU64::new(0);
 pub static OVER_BUDGET: AtomicU64 = AtomicU64::new(0);
+pub static UNJUDGED: AtomicU64 = AtomicU64::new(0);
+
+/// an output that could be judged neither by the item reader nor by the compiler
+pub fn note_unjudged(why: &str) {
+    if UNJUDGED.fetch_add(1, Ordering::Relaxed) == 0 {
+        eprintln!("NOTE: a generator output could not be judged: {}", why);
+    }
+}
 
 #[derive(Clone, Debug)]
 pub enum Outcome {
@@ -184,10 +192,14 @@ fn build_and_dump_in(which: &str, text: &str, work: &Path) -> Outcome {
             "[package]\nname = \"ce_dump\"\nversion = \"0.1.0\"\nedition = \"2021\"\npublish = false\n[workspace]\n[dependencies]\nunic-langid-impl = { path = \"../repo/unic-langid-impl\", features = [\"likelysubtags\"] }\n[profile.dev]\nopt-level = 0\ndebug = false\n",
         )?;
         std::fs::write(dump.join("src/main.rs"), DUMP_MAIN)?;
-        // same resolution as the repository's own lock file where one exists
-        for lock in ["/repo/Cargo.lock"] {
-            if Path::new(lock).exists() {
-                let _ = std::fs::copy(lock, dump.join("Cargo.lock"));
+        // resolve like the harness itself (its lock file is a superset of what the dump needs)
+        let own = std::env::current_exe()
+            .ok()
+            .and_then(|e| e.parent().and_then(|p| p.parent()).and_then(|p| p.parent()).map(|p| p.join("Cargo.lock")));
+        for lock in own.into_iter().chain([PathBuf::from("/repo/Cargo.lock")]) {
+            if lock.exists() {
+                let _ = std::fs::copy(&lock, dump.join("Cargo.lock"));
+                break;
             }
         }
         Ok(())
